@@ -601,6 +601,191 @@ func checkC10(c *core.Ctx, r *core.Report) {
 			}
 		}
 		r.Floor("ORDER", "call sites of initNewDpWal", n, 3)
+
+		// (6) the WAL of the next block carries the next block's number: recovery takes the block number from the file
+		// name and re-flushes that block, so a WAL created before the number advanced makes a restart overwrite the
+		// block that was just rotated.  In every function that changes the block number, each call that (transitively)
+		// creates a datapoint WAL file is dominated by the change.
+		reach := sm.staticMayReach(objs(initWal.Object()))
+		m := 0
+		for _, fn := range c.RepoFunctions() {
+			var stores []ssa.Instruction
+			for _, b := range fn.Blocks {
+				for _, in := range b.Instrs {
+					if st, ok := in.(*ssa.Store); ok {
+						if fa, ok := st.Addr.(*ssa.FieldAddr); ok && core.FieldOfAddr(fa) == blkF {
+							stores = append(stores, in)
+						}
+					}
+				}
+			}
+			if len(stores) == 0 {
+				continue
+			}
+			k := 0
+			for _, ci := range core.CallsIn(fn) {
+				callee := ci.Common().StaticCallee()
+				if callee == nil || !(callee == initWal || reach[callee]) {
+					continue
+				}
+				m++
+				k++
+				after := false
+				for _, st := range stores {
+					if core.InstrDominates(st, ci) {
+						after = true
+					}
+				}
+				r.Check(after, "ORDER", fmt.Sprintf("%s:wal-creation#%d-after-the-block-number-change", shortFn(fn), k), c.Pos(ci.Pos()),
+					"the block number is changed before the next block's WAL file is created",
+					"a datapoint WAL file is created before the block number of this function's block change is stored: the new block's WAL carries the number of the block that was just flushed, and after a crash recovery re-flushes that number from the new WAL, replacing the rotated block's files with the few datapoints logged since")
+			}
+		}
+		r.Floor("ORDER", "WAL creations in functions that change the block number", m, 1)
+	}
+
+	// ---------------------------------------------------------------- (7) the WAL files of a block are replayed in index order
+	// The listing order of a directory is either unspecified (Readdirnames) or by name (os.ReadDir), and in name order
+	// ..._10.wal precedes ..._2.wal.  The per-block file list that recovery replays must therefore be sorted explicitly,
+	// by a comparison of parsed numbers, on every path that returns it.
+	{
+		fn := c.Fn(pkgMetrics, "extractWALFileInfo")
+		filesF := c.Field(pkgMetrics, "walFilesInfo.walFiles")
+		numeric := sm.staticMayReach(objs(c.ExtObj("strconv", "ParseUint"), c.ExtObj("strconv", "Atoi"), c.ExtObj("strconv", "ParseInt")))
+		var sorts []ssa.Instruction
+		for _, ci := range core.CallsIn(fn) {
+			f := core.CalleeFunc(ci)
+			if f == nil || f.Pkg() == nil || !((f.Pkg().Path() == "sort" && (f.Name() == "Slice" || f.Name() == "SliceStable")) || (f.Pkg().Path() == "slices" && (f.Name() == "SortFunc" || f.Name() == "SortStableFunc"))) {
+				continue
+			}
+			args := ci.Common().Args
+			subject := args[0]
+			if mi, ok := subject.(*ssa.MakeInterface); ok {
+				subject = mi.X
+			}
+			ld, ok := subject.(*ssa.UnOp)
+			if !ok {
+				continue
+			}
+			fa, ok := ld.X.(*ssa.FieldAddr)
+			if !ok || core.FieldOfAddr(fa) != filesF {
+				continue
+			}
+			byNumber := false
+			for _, less := range funcValues(args[1]) {
+				for _, lc := range core.CallsIn(less) {
+					if callee := lc.Common().StaticCallee(); callee != nil && (numeric[callee]) {
+						byNumber = true
+					}
+					if lf := core.CalleeFunc(lc); lf != nil && lf.Pkg() != nil && lf.Pkg().Path() == "strconv" {
+						byNumber = true
+					}
+				}
+			}
+			if byNumber {
+				sorts = append(sorts, ci)
+			}
+		}
+		loops := core.Loops(fn)
+		ok := len(sorts) > 0
+		for _, ret := range core.Returns(fn) {
+			if core.ReturnSuccess(ret) == core.No {
+				continue
+			}
+			covered := false
+			for _, s := range sorts {
+				b := s.Block()
+				if lp := core.InnermostLoop(loops, b); lp != nil {
+					b = lp.Header
+				}
+				if b.Dominates(ret.Block()) {
+					covered = true
+				}
+			}
+			if !covered {
+				ok = false
+			}
+		}
+		_ = ok
+		r.Check(ok, "ORDER", "metrics.extractWALFileInfo:wal-files-of-a-block-in-index-order", c.Pos(fn.Pos()),
+			"every successful return is preceded by a sort of each block's WAL file list that compares parsed numbers",
+			"the WAL files of a block are handed to the replay loop in directory-listing order (unspecified, or by name, where ..._10.wal precedes ..._2.wal): completed appends are replayed out of order after a restart")
+	}
+
+	// ---------------------------------------------------------------- (8) an encoded block is private to its WAL until it is written
+	// Wal.Append encodes a block (PrepareEncode, which serialises the shared zstd encoder with a package lock) and writes it
+	// with its CRC afterwards, outside that lock.  Several WAL files are appended to concurrently (one per metrics segment,
+	// the metric-name WALs), so the bytes PrepareEncode hands back must belong to the encoder instance: no function of the
+	// wal package returns a slice that shares memory with a package-level variable.
+	{
+		nFn, nRet := 0, 0
+		var bad ssa.Instruction
+		var badG *ssa.Global
+		for _, fn := range c.RepoFunctions() {
+			if core.FnPkgPath(fn) != core.ModPath+"/"+pkgWal || fn.Blocks == nil {
+				continue
+			}
+			nFn++
+			for _, ret := range core.Returns(fn) {
+				for _, res := range ret.Results {
+					if _, isSlice := res.Type().Underlying().(*types.Slice); !isSlice {
+						continue
+					}
+					nRet++
+					seen := map[ssa.Value]bool{}
+					var fromGlobal func(v ssa.Value, depth int) *ssa.Global
+					fromGlobal = func(v ssa.Value, depth int) *ssa.Global {
+						if v == nil || seen[v] || depth > 8 {
+							return nil
+						}
+						seen[v] = true
+						switch x := v.(type) {
+						case *ssa.UnOp:
+							if g, ok := x.X.(*ssa.Global); ok && x.Op == token.MUL {
+								return g
+							}
+							// a local that was assigned from the global
+							if al, ok := x.X.(*ssa.Alloc); ok && al.Referrers() != nil {
+								for _, u := range *al.Referrers() {
+									if st, ok := u.(*ssa.Store); ok && st.Addr == ssa.Value(al) {
+										if g := fromGlobal(st.Val, depth+1); g != nil {
+											return g
+										}
+									}
+								}
+							}
+						case *ssa.Slice:
+							return fromGlobal(x.X, depth+1)
+						case *ssa.Phi:
+							for _, e := range x.Edges {
+								if g := fromGlobal(e, depth+1); g != nil {
+									return g
+								}
+							}
+						case *ssa.Call:
+							// append(g[:0], ...) and encoders that fill a destination slice (EncodeAll(src, dst)) may return dst's array
+							for _, a := range x.Call.Args {
+								if _, isSlice := a.Type().Underlying().(*types.Slice); isSlice {
+									if g := fromGlobal(a, depth+1); g != nil {
+										return g
+									}
+								}
+							}
+						}
+						return nil
+					}
+					if g := fromGlobal(res, 0); g != nil && bad == nil {
+						bad, badG = ret, g
+					}
+				}
+			}
+		}
+		r.Floor("OWN", "functions of the wal package", nFn, 20)
+		if bad != nil {
+			r.Violation("OWN", "wal:returned-slices-do-not-share-package-level-buffers", c.Pos(bad.Pos()), "a function of the wal package returns a slice that shares memory with the package-level variable "+badG.Name()+": the encoded block is written to the WAL file after the encoder lock is released, so another WAL's append can overwrite it in between; the file then holds a block with a valid CRC that carries another log's datapoints, or a bad block that hides every later completed append")
+		} else {
+			r.OK("OWN", "wal:returned-slices-do-not-share-package-level-buffers", "-", fmt.Sprintf("%d slice results of %d functions examined", nRet, nFn))
+		}
 	}
 }
 
